@@ -1095,4 +1095,208 @@ theorem canon_of_exact (x : Num) (hc : Canon x) (hx : x.isExact = true) : ∃ q,
     exact ⟨q, (Except.ok.inj hc).symm⟩
   | flt f => simp [isExact] at hx
 
+/-! ### `range(lo, hi, step)` on every numeric kind -/
+
+/-- **Table fact.** `range` with three numbers of any kinds reaches `ka_range`. -/
+theorem kaRange_table_all : ∀ a ∈ kinds3, ∀ b ∈ kinds3, ∀ c ∈ kinds3,
+    (resolveDesc "range" [a, b, c] []).toOption =
+      some (chP [tNum, tNum, tNum] "range|(Number, Number, Number)|ka.functions.ka_range" .kaRange) := by
+  decide +kernel
+
+/-- the `while dispatch("<=", (curr, hi))` loop of `ka_range` on Python numbers of any kind, without
+    `dispatch`: exact comparison, `curr + step` as `dispatch("+")` computes it (floating point as soon as a
+    float is involved, then `simplify_type`) -/
+def numRangeLoop (hi step : Num) : Nat → Num → List Num → Except Err (List Num)
+  | 0, _, _ => .error .diverges
+  | f + 1, curr, acc =>
+    if cmpLe curr hi then do
+      let nx ← binop .add curr step
+      numRangeLoop hi step f nx (curr :: acc)
+    else .ok acc.reverse
+
+/-- `ka_range` on Python numbers of any kind (with the model's iteration bound) -/
+def numKaRange (lo hi step : Num) : Except Err (List Num) :=
+  if !cmpLt (.int 0) step then .error .funArg
+  else if !cmpLe lo hi then .error .funArg
+  else numRangeLoop hi step (((hi.toRat - lo.toRat) / step.toRat).floor.toNat + 3) lo []
+
+theorem rnum_add (n : Nat) (a b : Num) :
+    rnum (fun nm as => dispatchV (n + 1) nm as []) "+" [a, b] = liftE (binop .add a b) := by
+  simp only [rnum, List.map, dispatch_add]
+  cases binop .add a b <;> rfl
+
+theorem kaRangeLoop_num (n : Nat) (hi step : Num) (f : Nat) (c : Num) (acc : List Num) :
+    kaRangeLoop (fun nm as => dispatchV (n + 1) nm as []) hi step f c (acc.map Val.num) =
+      match numRangeLoop hi step f c acc with
+      | .ok xs => .ok (.arr (xs.map Val.num))
+      | .error e => .error (.err e) := by
+  induction f generalizing c acc with
+  | zero => rfl
+  | succ f ih =>
+    simp only [kaRangeLoop, numRangeLoop, rnum_le, bind, Except.bind, truthy_ite, rnum_add]
+    cases cmpLe c hi with
+    | false => simp only [Bool.false_eq_true, if_false, List.map_reverse]
+    | true =>
+      simp only [if_true]
+      cases binop .add c step with
+      | error e => rfl
+      | ok nx => exact ih nx (c :: acc)
+
+/-- `range(lo, hi, step)` through `dispatch`, for operands of ANY kind, is `numKaRange` -/
+theorem dispatch_kaRange_num (n : Nat) (lo hi step : Num)
+    (hsz : ((hi.toRat - lo.toRat) / step.toRat).floor.toNat + 3 ≤ maxRange) :
+    dispatchV (n + 2) "range" [.num lo, .num hi, .num step] [] =
+      match numKaRange lo hi step with
+      | .ok xs => .ok (.arr (xs.map Val.num))
+      | .error e => .error (.err e) := by
+  have t := kaRange_table_all _ (numClass_mem lo) _ (numClass_mem hi) _ (numClass_mem step)
+  rw [dispatchV_step (c := chP [tNum, tNum, tNum] _ .kaRange) (code := .kaRange) (by simpa [classOf] using t) rfl]
+  have hlt := rnum_cmp n .lt (.int 0) step
+  simp only [cmpOpName, Compare.cmpNum, Compare.b2n] at hlt
+  have hng : ¬ ((hi.toRat - lo.toRat) / step.toRat).floor.toNat + 3 > maxRange := Nat.not_lt.mpr hsz
+  simp only [chP, coerceArgs_3 _ _ _ (.num lo) (.num hi) (.num step) rfl rfl rfl, BodyCode.run, bKaRange, bind, Except.bind,
+    hlt, rnum_le, truthy_ite, numKaRange]
+  cases cmpLt (.int 0) step with
+  | false => rfl
+  | true =>
+    cases cmpLe lo hi with
+    | false => rfl
+    | true =>
+      simp only [Bool.not_true, Bool.false_eq_true, if_false, hng]
+      have hl := kaRangeLoop_num n hi step (((hi.toRat - lo.toRat) / step.toRat).floor.toNat + 3) lo []
+      simp only [List.map_nil] at hl
+      rw [hl]
+      cases numRangeLoop hi step _ lo [] <;> rfl
+
+/-- **what the loop's result is**, as an inductive description: starting at `c`, while the current
+    number does not exceed `hi` (exact comparison) it is listed and the next one is `curr + step` as Ka's
+    `+` computes it on the kinds at hand -/
+inductive RangeTail (hi step : Num) : Num → List Num → Prop where
+  | stop (c : Num) : cmpLe c hi = false → RangeTail hi step c []
+  | next (c nx : Num) (tail : List Num) : cmpLe c hi = true → binop .add c step = .ok nx →
+      RangeTail hi step nx tail → RangeTail hi step c (c :: tail)
+
+theorem numRangeLoop_spec (hi step : Num) (f : Nat) (c : Num) (acc xs : List Num)
+    (h : numRangeLoop hi step f c acc = .ok xs) : ∃ tail, xs = acc.reverse ++ tail ∧ RangeTail hi step c tail := by
+  induction f generalizing c acc with
+  | zero => simp [numRangeLoop] at h
+  | succ f ih =>
+    simp only [numRangeLoop] at h
+    cases hc : cmpLe c hi with
+    | false =>
+      simp only [hc, Bool.false_eq_true, if_false, Except.ok.injEq] at h
+      exact ⟨[], by simp [h], .stop c hc⟩
+    | true =>
+      simp only [hc, if_true, bind, Except.bind] at h
+      cases hb : binop .add c step with
+      | error e => simp [hb] at h
+      | ok nx =>
+        simp only [hb] at h
+        obtain ⟨tail, hx, ht⟩ := ih nx (c :: acc) h
+        exact ⟨c :: tail, by simp [hx], .next c nx tail hc hb ht⟩
+
+/-- the description determines the list -/
+theorem RangeTail.unique {hi step c : Num} {t1 t2 : List Num} (h1 : RangeTail hi step c t1) (h2 : RangeTail hi step c t2) :
+    t1 = t2 := by
+  induction h1 generalizing t2 with
+  | stop c hc =>
+    cases h2 with
+    | stop _ _ => rfl
+    | next _ _ _ hc' _ _ => rw [hc] at hc'; cases hc'
+  | next c nx tail hc hb _ ih =>
+    cases h2 with
+    | stop _ hc' => rw [hc] at hc'; cases hc'
+    | next _ nx' tail' _ hb' ht' =>
+      rw [hb] at hb'
+      cases hb'
+      rw [ih ht']
+
+theorem rangeLoop_mono_le (hi step : Rat) (f f' : Nat) (hle : f ≤ f') (c : Rat) (acc xs : List Rat)
+    (h : Arr.rangeLoop hi step f c acc = some xs) : Arr.rangeLoop hi step f' c acc = some xs := by
+  induction f generalizing c acc f' with
+  | zero => simp [Arr.rangeLoop] at h
+  | succ f ih =>
+    cases f' with
+    | zero => omega
+    | succ f' =>
+      rw [Arr.rangeLoop] at h ⊢
+      by_cases hc : c ≤ hi
+      · simp only [hc, if_true] at h ⊢; exact ih f' (by omega) _ _ h
+      · simp only [hc, if_false] at h ⊢; exact h
+
+/-- when every addition along the way is exact in value, the values are the exact fragment's loop -/
+theorem RangeTail.rangeLoop {hi step c : Num} {xs : List Num} (h : RangeTail hi step c xs)
+    (hex : ∀ a ∈ xs, ∀ r, binop .add a step = .ok r → r.toRat = a.toRat + step.toRat) (acc : List Rat) :
+    Arr.rangeLoop hi.toRat step.toRat (xs.length + 1) c.toRat acc = some (acc.reverse ++ xs.map toRat) := by
+  induction h generalizing acc with
+  | stop c hc =>
+    have : ¬ c.toRat ≤ hi.toRat := by simpa [cmpLe] using hc
+    simp [Arr.rangeLoop, this]
+  | next c nx tail hc hb _ ih =>
+    have hle : c.toRat ≤ hi.toRat := by simpa [cmpLe] using hc
+    have hnx := hex c List.mem_cons_self nx hb
+    rw [List.length_cons, Arr.rangeLoop]
+    simp only [hle, if_true, ← hnx]
+    rw [ih (fun a ha => hex a (List.mem_cons_of_mem _ ha)) (c.toRat :: acc)]
+    simp
+
+/-- `+` on two exact numbers (canonical or not) is exact -/
+theorem binop_add_exact (a b r : Num) (ha : a.isExact = true) (hb : b.isExact = true) (h : binop .add a b = .ok r) :
+    r.toRat = a.toRat + b.toRat := by
+  cases a with
+  | flt x => simp [isExact] at ha
+  | int x =>
+    cases b with
+    | flt y => simp [isExact] at hb
+    | int y =>
+      simp only [binop, pyLin, bind, Except.bind, simplify, Except.ok.injEq] at h
+      subst h; simp [toRat]
+    | frac y =>
+      simp only [binop, pyLin, bind, Except.bind, simplify_frac, Except.ok.injEq] at h
+      subst h; rw [toRat_canon]
+  | frac x =>
+    cases b with
+    | flt y => simp [isExact] at hb
+    | int y =>
+      simp only [binop, pyLin, bind, Except.bind, simplify_frac, Except.ok.injEq] at h
+      subst h; rw [toRat_canon]
+    | frac y =>
+      simp only [binop, pyLin, bind, Except.bind, simplify_frac, Except.ok.injEq] at h
+      subst h; rw [toRat_canon]
+
+theorem canon_isExact (q : Rat) : (canon q).isExact = true := by unfold canon; split <;> rfl
+
+theorem binop_add_isExact (a b r : Num) (ha : a.isExact = true) (hb : b.isExact = true) (h : binop .add a b = .ok r) :
+    r.isExact = true := by
+  cases a with
+  | flt x => simp [isExact] at ha
+  | int x =>
+    cases b with
+    | flt y => simp [isExact] at hb
+    | int y =>
+      simp only [binop, pyLin, bind, Except.bind, simplify, Except.ok.injEq] at h
+      subst h; rfl
+    | frac y =>
+      simp only [binop, pyLin, bind, Except.bind, simplify_frac, Except.ok.injEq] at h
+      subst h; exact canon_isExact _
+  | frac x =>
+    cases b with
+    | flt y => simp [isExact] at hb
+    | int y =>
+      simp only [binop, pyLin, bind, Except.bind, simplify_frac, Except.ok.injEq] at h
+      subst h; exact canon_isExact _
+    | frac y =>
+      simp only [binop, pyLin, bind, Except.bind, simplify_frac, Except.ok.injEq] at h
+      subst h; exact canon_isExact _
+
+theorem RangeTail.all_exact {hi step c : Num} {xs : List Num} (h : RangeTail hi step c xs)
+    (hc : c.isExact = true) (hs : step.isExact = true) : ∀ a ∈ xs, a.isExact = true := by
+  induction h with
+  | stop c _ => intro a ha; simp at ha
+  | next c nx tail _ hb _ ih =>
+    intro a ha
+    rcases List.mem_cons.mp ha with rfl | ha'
+    · exact hc
+    · exact ih (binop_add_isExact _ _ _ hc hs hb) a ha'
+
 end KaVerif.PipeArr
